@@ -5,6 +5,7 @@ import (
 	"fmt"
 	"math/rand"
 	"runtime"
+	"strings"
 	"sync"
 	"sync/atomic"
 	"testing"
@@ -20,7 +21,7 @@ import (
 // lock) or a slot that aliases the sender's variable is visible in the value itself.
 type bmsg struct {
 	V   uint64
-	Pad [5]uint64
+	Pad [63]uint64
 }
 
 func mkMsg(v uint64) bmsg {
@@ -66,7 +67,7 @@ func decodeItem(it *broadcast.EventOrLag[bmsg]) (bres, string) {
 			return bres{K: "bad"}, "Lag() on an event does not return ErrNoLag"
 		}
 		if !v.intact() {
-			return bres{K: "torn", Q: v.V}, fmt.Sprintf("received payload is not a value that was ever sent: %+v", v)
+			return bres{K: "torn", Q: v.V}, fmt.Sprintf("received payload is not a value that was ever sent (torn copy): V=%d Pad[0]=%d Pad[62]=%d", v.V, v.Pad[0], v.Pad[62])
 		}
 		return bres{K: "ev", Q: v.V}, ""
 	}
@@ -122,6 +123,7 @@ func TestBroadcastReplay(t *testing.T) {
 }
 
 func replayBroadcast(capacity uint64, beh []bstep) (dv *vh.Divergence) {
+	defer recoverAsDivergence("broadcast", len(beh), &dv)
 	b := broadcast.New[bmsg](capacity)
 	subs := map[int]*broadcast.Subscription[bmsg]{}
 	var sent uint64
@@ -389,7 +391,7 @@ type bcastSeen struct {
 // several consumers of different speed, optional unsubscribe, Close at the end.
 func bcastMonitorRound(seed int64, round int) (*vh.Divergence, string) {
 	rng := rand.New(rand.NewSource(seed))
-	caps := []uint64{0, 1, 2, 3, 4, 8, 16}
+	caps := []uint64{0, 1, 1, 2, 2, 3, 4, 8, 16}
 	req := caps[rng.Intn(len(caps))]
 	capacity := uint64(1)
 	for capacity < req {
@@ -397,6 +399,10 @@ func bcastMonitorRound(seed int64, round int) (*vh.Divergence, string) {
 	}
 	b := broadcast.New[bmsg](req)
 	sends := 300 + rng.Intn(700)
+	pace := []int{0, 16, 64}[rng.Intn(3)] // 0: the producer never pauses
+	if pace == 0 {
+		sends *= 4
+	}
 	var started, finished atomic.Uint64 // sends started / completed successfully
 	nsub := 2 + rng.Intn(3)
 	seen := make([]*bcastSeen, nsub)
@@ -424,13 +430,13 @@ func bcastMonitorRound(seed int64, round int) (*vh.Divergence, string) {
 			n := 0
 			for it := range sub.Recv() {
 				if n > 2*sends+8 {
-					sn.items = append(sn.items, bres{K: "unbounded"})
+					sn.items = append(sn.items, bres{K: "bad unbounded: more items than messages were sent"})
 					sub.Unsubscribe()
 					break
 				}
 				d, why := decodeItem(&it)
 				if why != "" {
-					d.K = "bad:" + why
+					d.K = "bad " + d.K + ": " + why
 				}
 				sn.items = append(sn.items, d)
 				sn.sentAtEnd = append(sn.sentAtEnd, started.Load())
@@ -463,7 +469,7 @@ func bcastMonitorRound(seed int64, round int) (*vh.Divergence, string) {
 			m.V = 1 << 60 // must not be visible to anybody
 			m.Pad[0] = 0
 			finished.Add(1)
-			if r.Intn(16) == 0 {
+			if pace > 0 && r.Intn(pace) == 0 {
 				time.Sleep(time.Duration(r.Intn(20)) * time.Microsecond)
 			}
 		}
@@ -518,8 +524,8 @@ func bcastMonitorRound(seed int64, round int) (*vh.Divergence, string) {
 				}
 				cur, known = it.N, true
 			default:
-				return &vh.Divergence{Key: "broadcast-concurrent:bad-item:" + it.K[:min(len(it.K), 12)], Step: i,
-					What: fmt.Sprintf("sub %d (cap %d): %s (%+v)", s, capacity, it.K, it), Observed: sn.items[max(0, i-3):min(len(sn.items), i+3)]}, ""
+				return &vh.Divergence{Key: "broadcast-concurrent:bad-item:" + strings.TrimSuffix(strings.Fields(it.K+" ?")[1], ":"), Step: i,
+					What: fmt.Sprintf("sub %d (cap %d): %s", s, capacity, it.K), Observed: sn.items[max(0, i-3):i]}, ""
 			}
 		}
 		if !sn.closed {
